@@ -1120,6 +1120,19 @@ class SX:
             if found:
                 break
         if len(found) == 1 and isinstance(found[0], (ast.Tuple, ast.List, ast.Set, ast.Dict, ast.Constant)):
+            # a table that module-level / class-level code modifies after its definition (T.update(..), T[k] = v, T += ..) is not a constant
+            for body in bodies:
+                for stx in body:
+                    if isinstance(stx, (ast.FunctionDef, ast.AsyncFunctionDef, ast.ClassDef)):
+                        continue
+                    for n in ast.walk(stx):
+                        if isinstance(n, ast.Call) and isinstance(n.func, ast.Attribute) and isinstance(n.func.value, ast.Name) and n.func.value.id == nm \
+                                and n.func.attr in MUTATORS:
+                            return None
+                        if isinstance(n, (ast.Subscript, ast.Attribute)) and isinstance(n.ctx, (ast.Store, ast.Del)) and isinstance(n.value, ast.Name) and n.value.id == nm:
+                            return None
+                        if isinstance(n, ast.AugAssign) and isinstance(n.target, ast.Name) and n.target.id == nm:
+                            return None
             return found[0]
         return None
 
